@@ -355,6 +355,8 @@ class World:
             self.endpoints[ev[1]].kernel.fail_next(ev[2], ev[3])
         elif kind == 'ksockfail':   # ('ksockfail', ep, k, errno): k-th netlink request from now raises OSError in the socket
             self.endpoints[ev[1]].kernel.sock_fail_next(ev[2], ev[3])
+        elif kind == 'krecvfail':   # ('krecvfail', ep, k, errno): k-th netlink request from now is carried out, reading its answer fails
+            self.endpoints[ev[1]].kernel.recv_fail_next(ev[2], ev[3])
         elif kind == 'sendfail':    # ('sendfail', ep, k, exc-name)
             ep = self.endpoints[ev[1]]
             exc = {'gaierror': socket.gaierror(-2, 'Name or service not known'),
